@@ -26,6 +26,13 @@ def pairs(rnd, tier, big=True):
         base = [FG.text(rnd, rnd.choice([12, 33, 70, 150])) for _ in range(rnd.choice([3, 4, 6]))]
         A = Z.make(base, zdict=zd, **cfg)
         out.append(('edit/c%d' % ci, A.build(), Z.make(edit(rnd, base), zdict=zd, **cfg)))
+        # an old file that is itself damaged: cut inside its data (an earlier interrupted download) or with one byte off
+        ab = A.build(); ha = len(A.header())
+        if len(ab) > ha + 2:
+            Bz = Z.make(edit(rnd, base), zdict=zd, **cfg)
+            out.append(('old-truncated/c%d' % ci, ab[:rnd.randrange(ha + 1, len(ab))], Bz))
+            m = bytearray(ab); m[rnd.randrange(ha, len(ab))] ^= 0x20
+            out.append(('old-corrupt/c%d' % ci, bytes(m), Bz))
         if ci == 0:
             out.append(('edit2/c%d' % ci, A.build(), Z.make(edit(rnd, edit(rnd, base)), zdict=zd, **cfg)))
             out.append(('same/c%d' % ci, A.build(), A))
@@ -47,8 +54,9 @@ def pairs(rnd, tier, big=True):
         if ci == 3:
             out.append(('other-dict/c%d' % ci, Z.make(base, zdict=FG.text(rnd, 91), **cfg).build(), Z.make(edit(rnd, base), zdict=zd, **cfg)))
     if big:
-        bigc = [bytes(rnd.getrandbits(8) for _ in range(n)) for n in (20000, 500, 18000)]
-        out.append(('big', Z.make([bigc[0], FG.text(rnd, 300)], comp='none').build(), Z.make(bigc, comp='none')))
+        # chunks spanning several 32 KiB copy/scan buffers and several 16 KiB transport buffers; the old file has the largest
+        bigc = [bytes(rnd.getrandbits(8) for _ in range(n)) for n in (70000, 500, 40000)]
+        out.append(('big', Z.make([FG.text(rnd, 300), bigc[0]], comp='none').build(), Z.make(bigc, comp='none')))
     return out
 
 def targets(rnd, Abytes, B):
@@ -75,6 +83,8 @@ def targets(rnd, Abytes, B):
         off += c['comp_len']
         if 0 < c['comp_len'] and off < len(bB): t['cut-after-chunk%d' % k] = bB[:off]
         if c['comp_len'] > 2: t['cut-inside-chunk%d' % k] = bB[:off - rnd.randrange(1, c['comp_len'])]
+        for j in range(1, c['comp_len'] // 32768 + 1):      # the file ends a whole number of read buffers into the chunk
+            if 32768 * j < c['comp_len']: t['cut-%dx32k-into-chunk%d' % (j, k)] = bB[:off - c['comp_len'] + 32768 * j]
     return t
 
 class Writer:
@@ -85,11 +95,11 @@ class Writer:
         if k not in self.cache:
             self.cache[k] = FG.write(self.ctx, '%s%d' % (tag, len(self.cache)), b)
         return self.cache[k]
-    def op(self, A, Bb, tgt, limit, frag, kill='-'):
+    def op(self, A, Bb, tgt, limit, frag, kill='-', drop=None):
         i = self.n; self.n += 1
         bp = self.file(Bb, 'B'); ap = self.file(A, 'A') if A else '-'
         tp = FG.write(self.ctx, 'u%d.tgt' % i, tgt); FG.write(self.ctx, 'u%d.tgt.before' % i, tgt)
-        return 'UPDATE %s %s %s %d %s %s' % (bp, ap, tp, limit, frag, kill)
+        return 'UPDATE %s %s %s %d %s %s%s' % (bp, ap, tp, limit, frag, kill, (' ' + drop) if drop else '')
 
 def project(impl, c):
     """drop what the model does not predict: libc's logged answers, the number of write calls, and (kill runs) everything
@@ -97,3 +107,19 @@ def project(impl, c):
     toks = [t for t in impl.split(' ') if not (t.startswith('rx=') or t.startswith('rc=') or t.startswith('writes=') or t.startswith('r.writes=')
                                              or t.startswith('killed='))]
     return ' '.join(toks)
+
+def drop_cases(rnd, W, tier, n):
+    """the connection drops in the middle of a transfer (after a number of body bytes: inside a chunk, at a chunk end, inside a
+    multipart part header) and the client goes on: zck_dl_reset, a new request, a complete response - on the SAME contexts"""
+    out = []
+    prs = pairs(rnd, tier, big=False)
+    for _ in range(n):
+        tag, A, B = rnd.choice(prs)
+        Bb = B.build(); body = len(B.body())
+        if body < 4: continue
+        tgt = rnd.choice([b'', B.header(), B.header() + bytes(body)])
+        lim = rnd.choice([-1, -1, 1, 2, 3])
+        cutb = rnd.choice([1, 2, rnd.randrange(1, body + 80), rnd.randrange(1, body + 80), max(1, body // 2)])
+        out.append((W.op(A, Bb, tgt, lim, rnd.choice(['-', 'b7', 'b64']), '-', '%d:%d' % (rnd.choice([1, 1, 2]), cutb)),
+                    'retry-after-drop/' + tag.split('/')[0]))
+    return out
